@@ -23,7 +23,7 @@ import (
 const c25Rule = "(c1,c2,n) with 1<=c1<=c2 (ratios exactly 1/4,1/3,1/2,1, tiny, within 2^-k of 1, random; operands up to 2^64-1) and n in 1..2^20 (mostly 1..10000); " +
 	"non-trivial = c<1 and n>=2; distinct by (c1,c2,n). Secondary author: (randomness, slot, n), non-trivial = n>=2; distinct by input"
 
-const c25Prec = 384
+const c25Prec = 256
 
 // ---------------------------------------------------------------------------
 // arbitrary precision helpers
@@ -47,7 +47,7 @@ func c25atanh(z *big.Float, terms int) *big.Float {
 var c25ln2 = func() *big.Float {
 	// ln 2 = 2 atanh(1/3); z^2 = 1/9 gives 3.17 bits per term
 	third := c25f().Quo(c25fInt(1), c25fInt(3))
-	return c25f().Mul(c25fInt(2), c25atanh(third, 140))
+	return c25f().Mul(c25fInt(2), c25atanh(third, 90))
 }()
 
 // ln(x), x > 0.
@@ -64,7 +64,7 @@ func c25ln(x *big.Float) *big.Float {
 	}
 	// m in [0.9973,1): z = (m-1)/(m+1), |z| < 0.00136, z^2 < 1.9e-6 (19 bits per term)
 	z := c25f().Quo(c25f().Sub(m, c25fInt(1)), c25f().Add(m, c25fInt(1)))
-	lnm := c25f().Mul(c25atanh(z, 24), c25fInt(2<<k))
+	lnm := c25f().Mul(c25atanh(z, 15), c25fInt(2<<k))
 	return lnm.Add(lnm, c25f().Mul(c25ln2, c25fInt(int64(e))))
 }
 
@@ -78,7 +78,7 @@ func c25exp(t *big.Float) *big.Float {
 	r.SetMantExp(r, -s) // r / 256, |r| < 0.0014
 	sum := c25fInt(1)
 	term := c25fInt(1)
-	for i := 1; i < 48; i++ {
+	for i := 1; i < 30; i++ {
 		term.Mul(term, r)
 		term.Quo(term, c25fInt(int64(i)))
 		sum.Add(sum, term)
@@ -162,7 +162,7 @@ func c25reference(c1, c2 uint64, n int) c25ref {
 	yA := c25pow(c25f().Set(r.xf), c25f().Set(r.thf))
 	r.tA = c25clamp(c25scale(c25f().Sub(one, yA)))
 
-	// exact: x = 1 - c1/c2 as a rational rounded once to 384 bits
+	// exact: x = 1 - c1/c2 as a rational rounded once to 256 bits
 	x := c25f().Quo(c25f().SetInt(new(big.Int).Sub(new(big.Int).SetUint64(c2), new(big.Int).SetUint64(c1))),
 		c25f().SetInt(new(big.Int).SetUint64(c2)))
 	th := c25f().Quo(one, c25fInt(int64(n)))
@@ -196,7 +196,7 @@ func c25reference(c1, c2 uint64, n int) c25ref {
 
 func TestC25OracleSelfCheck(t *testing.T) {
 	defer kit.Flush()
-	tol := c25f().SetMantExp(c25fInt(1), -340)
+	tol := c25f().SetMantExp(c25fInt(1), -225)
 	closeRel := func(a, b *big.Float) bool {
 		d := c25f().Sub(a, b)
 		d.Abs(d)
@@ -205,11 +205,17 @@ func TestC25OracleSelfCheck(t *testing.T) {
 	}
 	// ln 2 to 50 digits
 	want, _, _ := big.ParseFloat("0.69314718055994530941723212145817656807550013436025525412068000949339362196969471560586332699641868754", 10, c25Prec, big.ToNearestEven)
-	if !closeRel(c25ln2, want) {
+	// absolute comparison with the ~100 digit decimal constants
+	tolC := c25f().SetMantExp(c25fInt(1), -235)
+	closeC := func(a, b *big.Float) bool {
+		d := c25f().Sub(a, b)
+		return d.Abs(d).Cmp(tolC) <= 0
+	}
+	if !closeC(c25ln2, want) {
 		t.Fatalf("ln2 = %s", c25ln2.Text('g', 60))
 	}
 	e, _, _ := big.ParseFloat("2.71828182845904523536028747135266249775724709369995957496696762772407663035354759457138217852516642742746", 10, c25Prec, big.ToNearestEven)
-	if !closeRel(c25exp(c25fInt(1)), e) {
+	if !closeC(c25exp(c25fInt(1)), e) {
 		t.Fatalf("exp(1) = %s", c25exp(c25fInt(1)).Text('g', 60))
 	}
 	// y = x^(1/n)  =>  y^n = x by repeated multiplication (independent of ln/exp)
@@ -224,7 +230,7 @@ func TestC25OracleSelfCheck(t *testing.T) {
 			// relative error grows at most n-fold
 			d := c25f().Sub(p, x)
 			d.Abs(d)
-			lim := c25f().Mul(c25f().SetMantExp(c25fInt(int64(n)), -330), x)
+			lim := c25f().Mul(c25f().SetMantExp(c25fInt(int64(n)), -225), x)
 			if d.Cmp(lim) > 0 {
 				t.Fatalf("(%s^(1/%d))^%d = %s", xs, n, n, p.Text('g', 50))
 			}
@@ -348,6 +354,12 @@ func TestC25Threshold(t *testing.T) {
 		}
 		if g.Sign() == 0 {
 			labels = append(labels, "threshold=0")
+		}
+		// margin to the asserted tolerance 2^77 (measured)
+		if da := new(big.Int).Sub(g, r.tA).BitLen(); da <= 74 {
+			labels = append(labels, "|impl-refA|<2^74")
+		} else {
+			labels = append(labels, fmt.Sprintf("|impl-refA|<2^%d", da))
 		}
 		// how tight is the agreement with the exact expression (measured, not asserted)
 		dd := new(big.Int).Sub(g, r.exact)
